@@ -187,6 +187,54 @@ def scope(res, pid, rng, tier):
     return dis, fails
 
 
+def long_line_scope(res, pid, rng, tier):
+    """very long lines (a token straddling offsets 8192, 65536, 131072): implementation against the token-level reading;
+    addresses, masks and preserved addresses"""
+    import io
+    from netconan.anonymize_files import FileAnonymizer
+    fails = []
+    nets = ["10.20.0.0/16"]
+    c4 = ipgen.Cfg(4, "longline", 8, None, nets, "md5")
+    c6 = ipgen.Cfg(6, "longline", 8, None, None, "md5")
+    nn = [ipaddress.ip_network(n) for n in nets]
+    fa_ = FileAnonymizer(anon_pwd=False, anon_ip=True, salt="longline", preserve_networks=list(nets), preserve_suffix_v4=8, preserve_suffix_v6=8)
+    toks = ["11.22.33.44", "10.20.30.40", "255.255.252.0", "198.51.100.7", "2001:db8:203::d", "2001:db8:0:1:2:3:4:5"]
+    lines = []
+    for off in (8192, 65536, 131072):
+        for t in toks:
+            for j in (1, len(t) // 2, len(t) - 1):
+                lines.append("remark " + "y" * (off - 7 - j - 1) + " " + t + " end " + t)
+    need = {4: set(), 6: set()}
+
+    def collect(f, a):
+        need[f].add(a)
+        return a
+    mids = []
+    for s_ in lines:
+        e6, _ = expected(6, s_, collect, [])
+    imgs6 = dict(zip(sorted(need[6]), spec_images(c6, sorted(need[6])) if need[6] else []))
+    for s_ in lines:
+        e6, sig = expected(6, s_, lambda f, a: imgs6[a], [])
+        mids.append(e6)
+        expected(4, e6, collect, nn)
+    imgs4 = dict(zip(sorted(need[4]), spec_images(c4, sorted(need[4])) if need[4] else []))
+    for s_, e6 in zip(lines, mids):
+        exp, _ = expected(4, e6, lambda f, a: imgs4[a], nn)
+        o = io.StringIO()
+        try:
+            fa_.anonymize_io(io.StringIO(s_ + "\n"), o)
+            got = o.getvalue()
+        except Exception as e:  # noqa
+            got = "<raised %s>" % type(e).__name__
+        res.evaluations += 1
+        res.nt(("long", len(s_), s_[-12:]))
+        if got != exp + "\n":
+            k = next((i for i, (a, b) in enumerate(zip(got, exp + "\n")) if a != b), 0)
+            fails.append({"kind": "a very long line is not handled like a short one (token near offset %d)" % k, "line_length": len(s_),
+                          "line_tail": s_[-60:], "output_around": got[max(0, k - 30): k + 40], "expected_around": exp[max(0, k - 30): k + 40]})
+    return [], fails
+
+
 def io_scope(res, pid, rng, tier):
     """FileAnonymizer.anonymize_io (IPv6 pass, then IPv4 pass) on lines mixing both families; expected =
     IPv4 reading applied to the IPv6 reading."""
